@@ -1,5 +1,6 @@
 import Claripy.AST.Subst
 import ClaripyProofs.Lemmas.AST.RulesSound
+import ClaripyProofs.Lemmas.AST.IteRelocSound
 /-!
 # C08 — substitution, canonicalisation and ITE utilities preserve meaning
 
@@ -349,6 +350,35 @@ theorem C08_excavate_step (env : Env) (op : Op) (pre post : List Expr) (c a b : 
     rw [eval_app, eval_app, hlist _ _ hite]
   · simp only [if_true] at hite ⊢
     rw [eval_app, eval_app, hlist _ _ hite]
+
+/-! ### excavate_ite / burrow_ite: the whole algorithms -/
+
+/-- **C08 (excavate_ite)**: the model of `_excavate_ite` (Claripy/AST/IteReloc.lean: bottom-up, pulling every `If` whose condition
+is the first `If` argument's condition or its negation to the top of each node, giving up on other conditions) preserves the
+value of EVERY well-typed expression under every assignment — for any node constructor and any negation constructor that
+preserve values (`MkSound`, `NotSound`: what C01 establishes for the real simplifying constructors). -/
+theorem C08_excavate_sound (mk : Op → List Expr → Expr) (notOf : Expr → Expr) (hmk : MkSound mk) (hnot : NotSound notOf)
+    (env : Env) (e : Expr) (h : eval env e ≠ .err) : eval env (excavate mk notOf e) = eval env e :=
+  excavate_sound mk notOf hmk hnot env e h
+
+/-- the instance the driver runs: raw node constructor, `boolean_not_simplifier` for `~cond` -/
+theorem C08_excavate_model_sound (env : Env) (e : Expr) (h : eval env e ≠ .err) :
+    eval env (excavate (fun op args => .app op args) mkNot e) = eval env e :=
+  excavate_sound _ _ mkSound_raw notSound_mkNot env e h
+
+/-- **C08 (burrow_ite)**: the model of `_burrow_ite` (with the guard of the repaired code: the inner `If` is built only over
+operands of one sort and size) preserves the value of every well-typed expression, for every recursion budget. -/
+theorem C08_burrow_sound (mk : Op → List Expr → Expr) (hmk : MkSound mk) (env : Env) (fuel : Nat) (e : Expr)
+    (h : eval env e ≠ .err) : eval env (burrow mk fuel e) = eval env e :=
+  burrow_sound mk hmk env fuel e h
+
+/-- without the size guard the step is wrong: the inner `If` of `If(c, x[3:0], y[3:0])` with `x`, `y` of different sizes is
+ill-typed although the outer expression is well-typed (the defect repaired in the real `_burrow_ite`) -/
+theorem C08_burrow_unguarded_ill_typed :
+    let env : Env := ⟨fun _ => 0, fun _ => true⟩
+    eval env (.app .ite [.bools "c", .app (.extract 3 0) [.bvs "x" 8], .app (.extract 3 0) [.bvs "y" 16]]) ≠ .err ∧
+    eval env (.app (.extract 3 0) [.app .ite [.bools "c", .bvs "x" 8, .bvs "y" 16]]) = .err := by
+  decide
 
 /-! ### identical -/
 
